@@ -33,4 +33,8 @@ pub struct Plan {
     /// embedder's client does) instead of a fresh instance per transaction.
     #[serde(default)]
     pub reuse_vm: bool,
+    /// C29: transactions executed by one uninterrupted `transact` (the production path)
+    /// instead of single-stepped.
+    #[serde(default)]
+    pub plain: Vec<u8>,
 }
